@@ -256,6 +256,33 @@ CHECKS = {
         "dangling references; class-level result sets not judged; Open/Pull "
         "and Iter variants on a seeded sample of the filter tuples",
         "DESIGN.md 4-C13", "assoc"),
+    "C08": (
+        "TLA+ transcription of _mof_escaped / the mofstr folding loop / the "
+        "stringValue and charValue lexer / _fixStringValue over a 10-class "
+        "character alphabet, model-checked with TLC (round trip, no fold "
+        "inside an escape, termination, line length); TLC-generated and "
+        "seeded vectors and abstract object trees run through the real "
+        "tomof() and MOF compiler, every triple judged by TLC",
+        "TLC checks for every string of <=5 (thorough <=6) class symbols in "
+        "all listed folding contexts, one step per loop iteration, that the "
+        "repaired generator/reader pair round-trips, never folds inside an "
+        "escape sequence, never stalls and keeps lines <= maxline, and that "
+        "the pinned tree's three variants (split anywhere, \\' dropped, "
+        "char16 raw) do not; TLC-simulated vectors, the TLC counterexamples "
+        "and seeded real-scale vectors are run on the real mofstr() (output "
+        "compared with the transcription, drift only) and the real compiler; "
+        "abstract classes / instances / qualifier declarations (every type, "
+        "scalar/array/NULL shapes, char16, references, embedded instances, "
+        "methods, all scope and flavor sets, maxline 40..130) go through the "
+        "real tomof() and MOFCompiler, original and compiled object are "
+        "flattened by one projection and TLC decides names, types, array "
+        "shape, values, qualifier values, flavors, scopes and 'the literal "
+        "arrives as DSP0004 denotes' clause by clause.",
+        "characters judged per class (exact values compared as opaque "
+        "tokens); small-scope TLC bound with maxline 12..20; names are ASCII "
+        "non-keyword identifiers; class_origin/propagated not compared; "
+        "open flavors may come back as default or declaration flavor",
+        "DESIGN.md 4-C08", "moftext"),
     "C10": (
         "TLA+ reference keyed map with set-valued status codes (RepoCore); "
         "code-shaped validation-order + dict/heap machine refinement in TLC; "
